@@ -343,6 +343,9 @@ type case07 struct {
 	Nodes []node07 `json:"nodes"`
 	Req   reqJ     `json:"req"`
 	Ks    []int    `json:"ks"` // explicit counts; empty = around the reported capacity
+	// Mentions: the node list handed to GetNodesDeployCapacity (indices into Nodes, a node may be
+	// named several times); empty = every node once
+	Mentions []int `json:"mentions,omitempty"`
 	Impl  *impl07  `json:"impl"`
 }
 
@@ -374,6 +377,14 @@ func genC07(r *hx.Rng, id string) *case07 {
 			free0 = cp.Mem - u.Mem
 		}
 		c.Nodes = append(c.Nodes, n)
+	}
+	if r.Chance(25) { // node lists naming a node more than once (also zero-capacity ones)
+		for i := range c.Nodes {
+			for k := hx.Pick(r, 1, 1, 2, 3); k > 0; k-- {
+				c.Mentions = append(c.Mentions, i)
+			}
+		}
+		hx.Shuffle(r, c.Mentions)
 	}
 	c.Req = genReq(r, c.Nodes[0].Cap, free0)
 	if r.Chance(12) { // unlimited and finite nodes mixed (the total must saturate, in any iteration order)
@@ -441,6 +452,20 @@ func (f *fixture) runC07(c *case07) {
 		for _, e := range extras {
 			mgr.AddPlugins(e)
 		}
+	}
+	if len(c.Mentions) > 0 {
+		asked := []string{}
+		for _, i := range c.Mentions {
+			if i >= 0 && i < len(c.Nodes) {
+				asked = append(asked, real(c.Nodes[i].Name))
+			}
+		}
+		defer func(all []string) { // clean every node up, whatever was asked for
+			for _, n := range all {
+				f.cm.RemoveNode(f.ctx, n) //nolint
+			}
+		}(names)
+		names = asked
 	}
 	opts := resourcetypes.Resources{"cpumem": c.Req.raw()}
 	var caps map[string]*plugintypes.NodeDeployCapacity
@@ -1227,6 +1252,12 @@ func genC32(r *hx.Rng, id string) *case32 {
 	if r.Chance(12) { // every core (almost) fully used
 		for k, v := range c.Cap.CM {
 			c.Usage.CM[k] = v - hx.Pick(r, 0, 0, 10, 99)
+		}
+	}
+	for i := range ws { // unbound workloads with clearly different limits (remap must hand each its own)
+		if len(ws[i].CM) == 0 {
+			ws[i].CL = hx.Pick(r, int64(0), nano/2, nano, 3*nano)
+			ws[i].ML = hx.Pick(r, int64(0), 256<<20, 4<<30, ws[i].MR)
 		}
 	}
 	for i, w := range ws {
